@@ -367,6 +367,12 @@ impl Engine {
             best_mv = best_mv_at;
             best_score = score;
             self.max_depth = depth;
+
+            if best_mv.is_none() {
+                // no legal move: there is nothing a deeper pass could find
+                break;
+            }
+
             depth += 1;
 
             match score {
